@@ -93,6 +93,47 @@ def _replay_case(ctx, dutils, c, offset, scale):
         ctx.violation("flathomogen:argument-modified", "inputs changed by the call", case)
 
 
+def _replay_replicated(ctx, dutils, c, r):
+    """Scale law of Aggregate.tla: every element repeated r times (same index value, same datum) - groups of r, 2r, ... elements.
+    Sums scale by r, means / maxima / last values and the flat values are unchanged; a group with k missing values has r*k of
+    them, so the tolerance maxnan becomes r*maxnan + r - 1 (r*k <= r*maxnan + r - 1  <=>  k <= maxnan).  A single dip of the
+    index in the middle of a long run of equal values must still be rejected."""
+    ix = np.repeat(np.array(c["ix"], dtype=np.int64), r)
+    xs = np.repeat(np.array([np.nan if v == NAN else float(v) for v in c["xs"]]), r)
+    mx = r * c["maxnan"] + r - 1
+    case = dict(c, replicated=r)
+    out, e = _call(dutils.aggregate, ix, xs, c["op"], mx)
+    fl, e2 = _call(dutils.flathomogen, ix, xs, mx)
+    if c["err"]:
+        if e is None or e2 is None:
+            ctx.violation("aggregate:decreasing-index-accepted", "index decreases but no error (every element repeated %d times)" % r, case)
+        return
+    if e is not None or e2 is not None:
+        ctx.violation("aggregate:spurious-error", repr(e or e2), case)
+        return
+    if len(out) != len(c["agg"]) or len(fl) != r * len(c["flat"]):
+        ctx.violation("aggregate:op%d:length" % c["op"], "lengths %d / %d for every element repeated %d times" % (len(out), len(fl), r), case)
+        return
+    for k, exp in enumerate(c["agg"]):
+        if exp != FREE and not rat_close(out[k] / (r if c["op"] == 0 else 1), exp):
+            ctx.violation("aggregate:op%d:long-groups" % c["op"], "group %d of %d-fold repeated elements: got %r, expected %s/%s%s" %
+                          (k, r, out[k], exp[0], exp[1], " times %d" % r if c["op"] == 0 else ""), case)
+            break
+    for k, exp in enumerate(c["flat"]):
+        got = fl[k * r:(k + 1) * r]
+        if exp != FREE and not all(rat_close(g, exp) for g in got):
+            ctx.violation("flathomogen:long-groups", "element %d repeated %d times: got %s expected %s/%s" % (k, r, sorted(set(got.tolist()))[:3], exp[0], exp[1]), case)
+            break
+    # one dip inside a long run of equal index values
+    h = abs(hash((tuple(c["ix"]), r)))
+    pos = (h % len(c["ix"])) * r + 1 + (h // 7) % (r - 2)
+    bad = ix.copy()
+    bad[pos] -= 1
+    for name, res in (("aggregate", _call(dutils.aggregate, bad, xs, c["op"], mx)), ("flathomogen", _call(dutils.flathomogen, bad, xs, mx))):
+        if res[1] is None:
+            ctx.violation("%s:decreasing-index-accepted" % name, "index dips by one at position %d inside a run of %d equal values but no error" % (pos, r), dict(case, dip=int(pos)))
+
+
 OFFSETS = [0, -3, -2**31 + 8, 2**31 - 1 - 16, 199501]
 SCALES = [1.0, 0.25, 1024.0]
 
@@ -117,6 +158,8 @@ def spec_to_code(ctx, dutils):
             _replay_case(ctx, dutils, c, 0, 1.0)
         if h % 3 == 0 and len(set(c["ix"])) > 1:
             _replay_case(ctx, dutils, c, "spread", 1.0)
+        if h % 11 == 0:
+            _replay_replicated(ctx, dutils, c, [70, 130, 300][(h // 11) % 3])
         n += 1
         nontriv = (not c["err"]) and len(set(c["ix"])) < len(c["ix"])
         ctx.count(c, nontriv)
